@@ -206,7 +206,13 @@ def job_system(variant, dim, ncond, ntar, exact, errmode, aniso, tier):
             captured["iso_t"] = rnp.array(model.isometrize(rnp.array([list(r) for r in sy["tpos"]], dtype=object)), dtype=object).copy()
             # chunked evaluation must agree
             fld_c, var_c = k([list(r) for r in sy["tpos"]], return_var=True, chunk_size=1, **kw)
+            captured["n_vecs_c1"] = rnp.array(len(vecs))
             fld_only = rnp.array(k([list(r) for r in sy["tpos"]], return_var=False, **kw), dtype=object).ravel().copy()
+            if ntar >= 3:
+                # a chunk size that does not divide the number of targets (trailing partial chunk)
+                f2_, v2_ = k([list(r) for r in sy["tpos"]], return_var=True, chunk_size=2, **kw)
+                captured["fld_c2"] = rnp.array(f2_, dtype=object).ravel().copy()
+                captured["var_c2"] = rnp.array(v2_, dtype=object).ravel().copy()
         finally:
             kb.calc_field_krige_and_variance_c = orig
         K, M = kstub.INV_LOG[0]
@@ -295,7 +301,7 @@ def job_system(variant, dim, ncond, ntar, exact, errmode, aniso, tier):
                     out.append(prove(f"{base}/rhs[{i},{t}]==textbook", C, lift(kv_all[i, t]) == ref, T, witness_vars=wv, replay=rb, pairwise=False, extra=hints))
         # ---- (b') every chunk of the chunked call is handed the same right-hand side column (and the same data vector)
         nfull = 1
-        chunks = vecs[nfull:]
+        chunks = vecs[nfull : int(captured["n_vecs_c1"])]
         if len(chunks) != ntar or any(c_[0].shape[1] != 1 for c_ in chunks):
             out.append(rec(base + "/chunk_size=1 gives one kernel call per target", "sat", witness={}, replay={"kind": "system", "inputs": rb[1]({})}, detail=f"{[c_[0].shape for c_ in chunks]}"))
         else:
@@ -332,6 +338,12 @@ def job_system(variant, dim, ncond, ntar, exact, errmode, aniso, tier):
             out.append(prove(f"{base}/variance[{t}]==max(sill-k^T M k,0)", C, lift(var[t]) == z3.If(sill - qf >= 0, sill - qf, z3.RealVal(0)), T, witness_vars=wv, replay=rb, pairwise=False))
             out.append(prove(f"{base}/chunked estimate[{t}]==unchunked", C, lift(fld_c[t]) == lift(fld[t]), T, witness_vars=wv, replay=rb, pairwise=False))
             out.append(prove(f"{base}/estimate[{t}] with return_var=False == estimate with the variance", C, lift(fld_only[t]) == lift(fld[t]), T, witness_vars=wv, replay=rb, pairwise=False))
+            if "fld_c2" in captured:
+                for nm_, a_, b_ in (("estimate", captured["fld_c2"][t], fld[t]), ("variance", captured["var_c2"][t], var[t])):
+                    if a_ is None or (isinstance(a_, float) and a_ != a_):
+                        out.append(prove(f"{base}/chunk_size=2: {nm_}[{t}] evaluated (not left uninitialised)", C, z3.BoolVal(False), T, witness_vars=wv, replay=rb, pairwise=False, vacuity=False))
+                    else:
+                        out.append(prove(f"{base}/chunk_size=2: {nm_}[{t}]==unchunked", C, lift(a_) == lift(b_), T, witness_vars=wv, replay=rb, pairwise=False))
             out.append(prove(f"{base}/chunked variance[{t}]==unchunked", C, lift(var_c[t]) == lift(var[t]), T, witness_vars=wv, replay=rb, pairwise=False))
         if ninv != 1:
             out.append(rec(base + "/matrix inverted once per set_condition", "sat", witness={}, replay={"kind": "system", "inputs": rb[1]({})}, detail=f"{ninv} inversions"))
@@ -483,6 +495,7 @@ def jobs(tier, seed):
             nc = 3 if (big or (variant == "ordinary" and dim == 1)) else 2
             js.append(Job(f"system-{variant}-d{dim}", job_system, variant, dim, nc, 3 if big else 2, False, "nugget", False, tier))
         js.append(Job(f"system-{variant}-exact", job_system, variant, 1, 2, 2, True, "nugget", False, tier))
+    js.append(Job("system-simple-chunk2", job_system, "simple", 1, 2, 3, False, "nugget", False, tier))
     js.append(Job("system-ordinary-errscalar", job_system, "ordinary", 1, 2, 2, False, "scalar", False, tier))
     js.append(Job("system-simple-errvector", job_system, "simple", 2, 2, 2, False, "vector", False, tier))
     js.append(Job("system-universal-aniso", job_system, "universal", 2, 2, 2, False, "nugget", True, tier))
@@ -626,6 +639,21 @@ def replay_system(inputs):
             bad.append(f"variance[{t}] library={var[t]} direct solve={va}")
     if not (np.allclose(fld, fld_c, rtol=1e-9, atol=1e-11) and np.allclose(var, var_c, rtol=1e-9, atol=1e-11)):
         bad.append("chunked != unchunked")
+    if ntar >= 3:
+        cols = []
+        orig_sum = k._summate
+
+        def spy_sum(field, krige_var, c_slice, k_vec, return_var):
+            cols.append(k_vec.shape[1])
+            return orig_sum(field, krige_var, c_slice, k_vec, return_var)
+
+        k._summate = spy_sum
+        f2, v2 = k(tp, return_var=True, chunk_size=2, **kw2)
+        k._summate = orig_sum
+        if sum(cols) != ntar:
+            bad.append(f"chunk_size=2 on {ntar} targets evaluated {sum(cols)} of them (chunks {cols})")
+        elif not (np.allclose(f2, fld, rtol=1e-9, atol=1e-11) and np.allclose(v2, var, rtol=1e-9, atol=1e-11)):
+            bad.append("chunk_size=2 != unchunked")
     fld_only = k(tp, return_var=False, **kw2)
     if not np.allclose(fld_only, fld, rtol=1e-9, atol=1e-11):
         bad.append(f"return_var=False gives {np.asarray(fld_only).tolist()} but {np.asarray(fld).tolist()} with the variance")
